@@ -74,3 +74,11 @@ register('C10', [
     'JSON/serde layer, RFC3339 parsing (time crate), all String-keyed rules (ids, duplicates, relations, objectives, routing/matrix rules)',
     'E1102 demand sums (behind ValidationContext, not constructible symbolically)',
 ])
+
+register('C16', [
+    'matrix entries are integer-valued f64 from i8; sizes 2x2 (quick) / 3x3 (thorough); profile scale in {0.5,1,2,4}',
+    'the provider is exercised through its concrete type (dyn dispatch would make CBMC explore the HashMap-backed time-aware implementor)',
+], [
+    'TimeAwareMatrixTransportCost::new grouping (std HashMap); pragmatic create_transport_costs and error codes -> -1 (serde model + strings)',
+    'haversine approximation (trigonometry), location_fallback; non-square matrix lengths (sqrt().round() accepts them; not part of the stated property)',
+])
